@@ -227,6 +227,8 @@ class FieldCodeGenerator:
                     expression = f'None if {self._name} is None else {expression}'
         elif isinstance(field_type, StringType):
             expression = f'"{self._hardcoded_value}"'
+        elif isinstance(field_type, BoolType):
+            expression = "True" if self._hardcoded_value == "true" else "False"
         else:
             expression = self._hardcoded_value
 
